@@ -76,23 +76,44 @@ def q6(x):
     return int(round(x * 1000000))
 
 
-def sampler_trace(inst, a0, kind, n_steps, seed):
-    """py-mode: record mcmc_sampler.  Module-level callables looked up by compound_step are wrapped."""
-    P, K, H, reads, counts, freqs, F = build(inst)
-    ev = [{"op": "begin", "P": P, "Fn": inst["Fn"], "Fd": inst["Fd"], "H": inst["H"], "A": inst["A"], "w": inst["w"],
-           "reads": inst["reads"], "a": list(a0), "kind": kind}]
-    cur = {}
-    o_g, o_m, o_c, o_cs = M.gibbs_options, M.mh_options, M.random_choice, M.compound_step
+class Recorder:
+    """py-mode recorder.  Wraps the module-level callables that compound_step looks up in mchap.calling.mcmc and the
+    `mcmc_sampler` name that CallingMCMC.fit looks up in mchap.calling.classes.  One trace per mcmc_sampler call; the
+    `begin` event describes the instance the *harness* intended for that run (so wrong arguments reaching the sampler
+    show up as rows that do not match the instance), the initial vector is the one the sampler was given."""
 
-    def wrap(f, reverse):
+    def __init__(self, instances):
+        self.instances = list(instances)   # one per expected mcmc_sampler call, in call order
+        self.traces = []
+        self.ev = None
+        self.cur = {}
+        self.extra_calls = 0
+
+    def __enter__(self):
+        import mchap.calling.classes as C
+
+        self.C = C
+        self.o = (M.gibbs_options, M.mh_options, M.random_choice, M.compound_step, C.mcmc_sampler)
+        M.gibbs_options = self.wrap(self.o[0], False)
+        M.mh_options = self.wrap(self.o[1], True)
+        M.random_choice = self.choice
+        M.compound_step = self.cstep
+        C.mcmc_sampler = self.msampler
+        return self
+
+    def __exit__(self, *exc):
+        M.gibbs_options, M.mh_options, M.random_choice, M.compound_step, self.C.mcmc_sampler = self.o
+        return False
+
+    def wrap(self, f, reverse):
         def inner(**kw):
             before = [int(x) for x in kw["genotype_alleles"]]
             f(**kw)
+            K = len(kw["haplotypes"])
             ll = np.array(kw["llks_array"], dtype=float)
-            cur.clear()
-            cur.update({"op": "update", "k": int(kw["variable_allele"]), "a": before,
+            self.cur = {"op": "update", "k": int(kw["variable_allele"]), "a": before,
                         "lq": [q6(math.exp(x - ll.max())) for x in ll],
-                        "pq": [q6(x) for x in kw["probabilities_array"]], "llmax": float(ll.max())})
+                        "pq": [q6(x) for x in kw["probabilities_array"]], "llmax": float(ll.max())}
             if reverse:
                 # probability of each reverse move v_b -> v (same position), for the detailed-balance clause
                 k = int(kw["variable_allele"])
@@ -105,33 +126,81 @@ def sampler_trace(inst, a0, kind, n_steps, seed):
                       read_counts=kw["read_counts"], inbreeding=kw["inbreeding"], llks_array=t1, lpriors_array=t2,
                       probabilities_array=t3, frequencies=kw["frequencies"], llk_cache=None)
                     rq.append(q6(t3[before[k]]))
-                cur["rq"] = rq
+                self.cur["rq"] = rq
         return inner
 
-    def choice(p):
-        c = o_c(p)
-        e = dict(cur)
+    def choice(self, p):
+        c = self.o[2](p)
+        e = dict(self.cur)
         e["b"] = int(c)
-        ev.append(e)
+        if self.ev is not None:
+            self.ev.append(e)
         return c
 
-    def cstep(**kw):
-        ret = o_cs(**kw)
-        last = ev[-1]
-        ev.append({"op": "sorted", "a": [int(x) for x in kw["genotype_alleles"]],
-                   "retq": q6(math.exp(float(ret) - last["llmax"]))})
+    def cstep(self, **kw):
+        ret = self.o[3](**kw)
+        if self.ev is not None:
+            last = self.ev[-1]
+            self.ev.append({"op": "sorted", "a": [int(x) for x in kw["genotype_alleles"]],
+                            "retq": q6(math.exp(float(ret) - last["llmax"]))})
         return ret
 
-    M.gibbs_options, M.mh_options, M.random_choice, M.compound_step = wrap(o_g, False), wrap(o_m, True), choice, cstep
-    try:
-        np.random.seed(seed)
-        M.mcmc_sampler(genotype_alleles=np.array(a0, dtype=np.int64), haplotypes=H, reads=reads, read_counts=counts,
-                       inbreeding=F, frequencies=freqs, n_steps=n_steps, cache=True, step_type=0 if kind == "gibbs" else 1)
-    finally:
-        M.gibbs_options, M.mh_options, M.random_choice, M.compound_step = o_g, o_m, o_c, o_cs
-    for e in ev:
-        e.pop("llmax", None)
-    return ev
+    def msampler(self, **kw):
+        i = len(self.traces)
+        if i >= len(self.instances):
+            self.extra_calls += 1
+            return self.o[4](**kw)
+        inst = self.instances[i]
+        self.ev = [{"op": "begin", "P": inst["P"], "Fn": inst["Fn"], "Fd": inst["Fd"], "H": inst["H"], "A": inst["A"],
+                    "w": inst["w"], "reads": inst["reads"], "a": [int(x) for x in kw["genotype_alleles"]],
+                    "kind": "gibbs" if kw.get("step_type", 0) == 0 else "mh", "tag": inst.get("tag", "")}]
+        try:
+            return self.o[4](**kw)
+        finally:
+            for e in self.ev:
+                e.pop("llmax", None)
+            self.traces.append(self.ev)
+            self.ev = None
+
+
+def sampler_trace(inst, a0, kind, n_steps, seed):
+    """py-mode: record CallingMCMC.fit (the class `mchap call` uses) on one instance."""
+    from mchap.calling.classes import CallingMCMC
+
+    P, K, H, reads, counts, freqs, F = build(inst)
+    with Recorder([inst]) as rec:
+        CallingMCMC(ploidy=P, haplotypes=H, frequencies=freqs, inbreeding=F, steps=n_steps, chains=1, random_seed=seed,
+                    step_type="Gibbs" if kind == "gibbs" else "Metropolis-Hastings").fit(
+            reads, read_counts=counts, initial=None if a0 is None else np.array(a0, dtype=np.int64))
+    return rec.traces[0]
+
+
+def call_trace(task):
+    """py-mode: `mchap call` in-process on generated files; one recorded trace per (locus, sample, chain)."""
+    import contextlib
+    import io
+    import mchap.application.call as CA
+
+    buf = io.StringIO()
+    with Recorder(task["instances"]) as rec:
+        with contextlib.redirect_stdout(buf):
+            CA.program.cli(task["argv"]).run_stdout()
+    return {"traces": rec.traces, "extra_calls": rec.extra_calls, "stdout": buf.getvalue()}
+
+
+def cli_run(task):
+    """jit: run `mchap call` or `mchap call-exact` in-process, return the VCF text"""
+    import contextlib
+    import io
+
+    if task["argv"][1] == "call":
+        import mchap.application.call as A
+    else:
+        import mchap.application.call_exact as A
+    buf = io.StringIO()
+    with contextlib.redirect_stdout(buf):
+        A.program.cli(task["argv"]).run_stdout()
+    return buf.getvalue()
 
 
 def exact(inst):
@@ -161,6 +230,10 @@ def run(task):
         return [exact(i) for i in task["insts"]]
     if op == "sampler_trace":
         return [sampler_trace(j["inst"], j["a0"], j["kind"], j["n_steps"], j["seed"]) for j in task["jobs"]]
+    if op == "call_trace":
+        return call_trace(task)
+    if op == "cli_run":
+        return cli_run(task)
     if op == "sampler_run":
         return [sampler_run(j["inst"], j["steps"], j["burn"], j["seed"], j["kind"]) for j in task["jobs"]]
     raise ValueError(op)
